@@ -1,8 +1,11 @@
 (* Properties/C05.v - HTTP/2 and HTTP/3 codecs agree with their upstream reference codecs.
    Only statements, `exact`, and Print Assumptions.
-   Models: Model/QuicVarint.v (quicvarint/varint.go), Model/H2Frame.v (internal/http2/frame.go). *)
+   Models: Model/QuicVarint.v (quicvarint/varint.go), Model/H2Frame.v (internal/http2/frame.go),
+   Model/H3Frame.v (internal/http3/frames.go, headers.go); RFC 9114 transcription: Model/H3Spec.v. *)
 From ReqV Require Import Lib.Bytes Lib.BigEndian Model.QuicVarint Proofs.QuicVarintProofs.
 From ReqV Require Import Model.H2Frame Proofs.H2FrameProofs Proofs.H2OrderProofs.
+From ReqV Require Import Model.H3Frame Model.H3Spec Proofs.H3FrameProofs Proofs.H3FieldProofs.
+From Coq Require Import Permutation.
 Open Scope N_scope.
 
 (* ---------- QUIC variable-length integers (RFC 9000 §16) ---------- *)
@@ -111,9 +114,134 @@ Theorem C05_h2_parsed_header_sid_nonzero : forall h p f, parse_frame h p = Ok f 
 Proof. exact parsed_header_sid_nonzero. Qed.
 Print Assumptions C05_h2_parsed_header_sid_nonzero.
 
+(* ---------- HTTP/3 frames (RFC 9114 §7.1, §7.2.4; internal/http3/frames.go) ---------- *)
+
+(* dataFrame.Append / headersFrame.Append are read back by ParseNext: same type and length, payload
+   left in the reader *)
+Theorem C05_h3_frame_header_roundtrip : forall t l rest, l < 2 ^ 62 ->
+  (t = h3FrameData \/ t = h3FrameHeaders) ->
+  exists hb, h3_frame_header t l = Some hb /\
+    h3_parse_next (hb ++ rest) = (H3Ok (if t =? h3FrameData then H3Data l else H3Headers l), rest).
+Proof. exact h3_frame_header_roundtrip. Qed.
+Print Assumptions C05_h3_frame_header_roundtrip.
+
+(* ... for every encoding of the two integers a peer may choose (minimal or not); reserved types
+   (HTTP/2 leftovers 0x2, 0x6, 0x8, 0x9) are refused *)
+Theorem C05_h3_frame_header_any_encoding : forall et el t l rest, is_enc et t -> is_enc el l ->
+  (t = h3FrameData -> h3_parse_next (et ++ el ++ rest) = (H3Ok (H3Data l), rest)) /\
+  (t = h3FrameHeaders -> h3_parse_next (et ++ el ++ rest) = (H3Ok (H3Headers l), rest)) /\
+  (In t h3ReservedTypes -> h3_parse_next (et ++ el ++ rest) = (H3Err (H3Reserved t), rest)).
+Proof. exact h3_frame_header_any_encoding. Qed.
+Print Assumptions C05_h3_frame_header_any_encoding.
+
+(* every other frame type (known-but-ignored, GREASE, extensions) is skipped with its payload *)
+Theorem C05_h3_unknown_frame_skipped : forall et el t p rest, is_enc et t -> is_enc el (lenN p) ->
+  t <> h3FrameData -> t <> h3FrameHeaders -> t <> h3FrameSettings -> ~ In t h3ReservedTypes ->
+  h3_parse_next (et ++ el ++ p ++ rest) = h3_parse_next rest.
+Proof. exact h3_unknown_frame_skipped. Qed.
+Print Assumptions C05_h3_unknown_frame_skipped.
+
+Theorem C05_h3_unknown_frame_truncated : forall et el t l rest, is_enc et t -> is_enc el l ->
+  t <> h3FrameData -> t <> h3FrameHeaders -> t <> h3FrameSettings -> ~ In t h3ReservedTypes ->
+  lenN rest < l -> h3_parse_next (et ++ el ++ rest) = (H3Err H3EOF, []).
+Proof. exact h3_unknown_frame_truncated. Qed.
+Print Assumptions C05_h3_unknown_frame_truncated.
+
+(* SETTINGS payloads: a sequence of (id, value) pairs in any accepted encoding is accepted iff no
+   identifier occurs twice and the two boolean settings (ENABLE_CONNECT_PROTOCOL, H3_DATAGRAM) are
+   0 or 1; what is delivered then *)
+Theorem C05_h3_settings_accept_iff : forall b ps, enc_pairs b ps ->
+  ((exists s, h3_parse_settings_payload b = H3Ok s) <->
+   (NoDup (map fst ps) /\ Forall settings_value_ok ps)) /\
+  (forall s, h3_parse_settings_payload b = H3Ok s ->
+     sf_other s = other_of ps /\
+     sf_datagram s = (match assocN settingDatagram ps with Some v => v =? 1 | None => false end) /\
+     sf_extconnect s = (match assocN settingExtendedConnect ps with Some v => v =? 1 | None => false end)).
+Proof. exact h3_settings_accept_iff. Qed.
+Print Assumptions C05_h3_settings_accept_iff.
+
+(* settingsFrame.Append then ParseNext, for every duplicate-free map of unrecognised settings written
+   in any iteration order, both flags, anything following: read back exactly, as long as the payload
+   is within the parser's own 8 KiB cap (beyond it the fork refuses its own frame) *)
+Theorem C05_h3_settings_roundtrip : forall d e order rest,
+  NoDup (map fst order) -> Forall other_pair_ok order ->
+  exists l, h3_settings_len d e order = Some l /\
+    (l < 2 ^ 62 -> exists b, h3_settings_append d e order = Some b /\
+       (l <= h3SettingsMaxLen ->
+          h3_parse_next (b ++ rest) = (H3Ok (H3Settings (mk_settings d e order)), rest)) /\
+       (h3SettingsMaxLen < l -> fst (h3_parse_next (b ++ rest)) = H3Err (H3SettingsTooLarge l))).
+Proof. exact h3_settings_roundtrip. Qed.
+Print Assumptions C05_h3_settings_roundtrip.
+
+Theorem C05_h3_settings_order_irrelevant : forall d e o1 o2 rest,
+  Permutation o1 o2 -> NoDup (map fst o1) -> Forall other_pair_ok o1 ->
+  exists l b1 b2, h3_settings_len d e o1 = Some l /\ h3_settings_len d e o2 = Some l /\
+    (l <= h3SettingsMaxLen ->
+      h3_settings_append d e o1 = Some b1 /\ h3_settings_append d e o2 = Some b2 /\
+      lenN b1 = lenN b2 /\
+      h3_parse_next (b1 ++ rest) = (H3Ok (H3Settings (mk_settings d e o1)), rest) /\
+      h3_parse_next (b2 ++ rest) = (H3Ok (H3Settings (mk_settings d e o2)), rest)).
+Proof. exact h3_settings_order_irrelevant. Qed.
+Print Assumptions C05_h3_settings_order_irrelevant.
+
+(* Append panics (quicvarint) iff some identifier or value needs more than 62 bits *)
+Theorem C05_h3_settings_append_panics_iff : forall ps, h3_pairs_len ps = None <-> ~ Forall pair_in_range ps.
+Proof. exact pairs_len_none. Qed.
+Print Assumptions C05_h3_settings_append_panics_iff.
+
+(* ---------- received field sections (RFC 9114 §4.2, §4.3; internal/http3/headers.go) ---------- *)
+
+(* parseHeaders accepts a request / response header section iff the RFC transcription (Model/H3Spec.v:
+   no upper-case or invalid characters in names, valid values, only the pseudo-header fields defined
+   for the direction and all of them before the regular fields, no connection-specific fields, te only
+   "trailers"; plus - outside §4.2-4.3 - agreeing content-length values that are empty or < 2^63) holds *)
+Theorem C05_h3_headers_accept_iff_rfc9114 : forall is_request fs,
+  (exists h, h3_parse_headers is_request fs = HOk h) <-> rfc9114_header_section_ok is_request fs.
+Proof. exact h3_headers_accept_iff_rfc9114. Qed.
+Print Assumptions C05_h3_headers_accept_iff_rfc9114.
+
+(* parseTrailers (as repaired by 9f5b243) accepts exactly the well-formed trailer sections *)
+Theorem C05_h3_trailers_accept_iff_rfc9114 : forall fs,
+  (exists m, h3_parse_trailers fs = HOk m) <-> rfc9114_trailer_section_ok fs.
+Proof. exact h3_trailers_accept_iff_rfc9114. Qed.
+Print Assumptions C05_h3_trailers_accept_iff_rfc9114.
+
+Theorem C05_h3_trailers_pinned_refuted :
+  let fs := [(bs "X-Upper", bs "1")] in
+  (exists m, h3_parse_trailers_pinned fs = HOk m) /\ ~ rfc9114_trailer_section_ok fs /\
+  h3_parse_trailers fs = HErr HNotLower.
+Proof. exact h3_trailers_pinned_refuted. Qed.
+Print Assumptions C05_h3_trailers_pinned_refuted.
+
+(* an accepted response is a well-formed response section with a :status field whose value is a
+   non-empty integer, which becomes StatusCode (one direction only: the converse would need the
+   "last :status wins" rule of the code spelled out; §4.3.2 "MUST be included" is the corollary) *)
+Theorem C05_h3_response_accept_sound_partial : forall fs h code, h3_response fs = HOk (h, code) ->
+  rfc9114_header_section_ok false fs /\ In (hd_status h) (status_values fs) /\
+  hd_status h <> [] /\ go_atoi (hd_status h) = Some code.
+Proof. exact h3_response_accept_sound. Qed.
+Print Assumptions C05_h3_response_accept_sound_partial.
+
+Theorem C05_h3_response_without_status_refused : forall fs,
+  status_values fs = [] -> forall r, h3_response fs <> HOk r.
+Proof. exact h3_response_without_status_refused. Qed.
+Print Assumptions C05_h3_response_without_status_refused.
+
 (* non-vacuity *)
 Example C05_nonvacuous :
   vi_append 16384 = Some (hx "80004000") /\ vi_parse (hx "80004000ff") = ViOk 16384 4 /\
   vi_append_with_len 37 8 = Some (hx "c000000000000025") /\ vi_lenok 8 /\
   vi_parse (hx "c000000000000025") = ViOk 37 8 /\ vi_parse (hx "c0000000000000") = ViUnexpectedEOF.
 Proof. vm_compute. unfold vi_lenok. repeat split. tauto. Qed.
+
+Example C05_h3_nonvacuous :
+  h3_settings_append true false [(6, 4096); (1, 0)] = Some (hx "040733010650000100") /\
+  h3_parse_next (hx "040733010650000100" ++ hx "0005") =
+    (H3Ok (H3Settings (mk_settings true false [(6, 4096); (1, 0)])), hx "0005") /\
+  fst (h3_parse_next (hx "040406000601")) = H3Err (H3DupSetting 6) /\
+  h3_parse_next (hx "21020000" ++ hx "0103") = (H3Ok (H3Headers 3), []) /\
+  (exists h, h3_parse_headers false [(bs ":status", bs "200"); (bs "content-length", bs "5"); (bs "x-a", bs "1")] = HOk h) /\
+  h3_parse_headers false [(bs ":status", bs "200"); (bs "x-a", bs "1"); (bs ":status", bs "200")] = HErr HPseudoAfterRegular /\
+  h3_parse_headers false [(bs ":status", bs "200"); (bs "X-a", bs "1")] = HErr HNotLower /\
+  h3_parse_headers false [(bs ":status", bs "200"); (bs "connection", bs "close")] = HErr HBadName.
+Proof. vm_compute. repeat split. eexists. reflexivity. Qed.
